@@ -593,7 +593,8 @@ func (e *FunctionCallExpr) executeFuncBatch(funcObj *Function, chunk []KVPair, c
 		err error
 	)
 	for i := 0; i < len(chunk); i++ {
-		ret[i], err = funcObj.Body(chunk[i], e.Args, ctx)
+		// The row body must not use the per row field cache (it is not cleared between the rows of a chunk)
+		ret[i], err = funcObj.Body(chunk[i], e.Args, nil)
 		if err != nil {
 			return nil, err
 		}
